@@ -120,7 +120,7 @@ def _child_main(sock, i: int, ps: dict, root: str, cfg: dict) -> None:
         sys.stderr = err_f
         stdin_text = ps.get("stdin_text")
         sys.stdin = seams_mod.StdinProxy(S, stdin_text if stdin_text is not None else "")
-        sys.argv = list(ps["argv"])
+        sys.argv = [a.replace("{ABS}", root) for a in ps["argv"]]
         S.install()
         how = "exit"
         S.ask("start", "<proc>")
@@ -177,6 +177,7 @@ class _Proc:
         self.faults: list = []
         self.hang = False
         self.last_fault_ev = -1
+        self.last_rec = None
 
 
 def _recv(p: _Proc, timeout: float):
@@ -386,7 +387,8 @@ def _run(spec, tape, root, event_timeout):
             stats["clock_max"] = max(stats["clock_max"], clock)
             if reply is not None:
                 reply["clk"] = clock
-            rec = [seq, p.i, op, path, (reply or {"a": "kill"})["a"], (fault[1] if fault else None)]
+            rec = [seq, p.i, op, path, (reply or {"a": "kill"})["a"], (fault[1] if fault else None), None]
+            p.last_rec = rec
             if ev.get("dst"):
                 rec.append(ev["dst"])
             if reply is not None and reply.get("perm"):
@@ -395,10 +397,6 @@ def _run(spec, tape, root, event_timeout):
             seq += 1
             p.nev += 1
             ok = reply is not None and reply["a"] in ("ok", "short")
-            if ok and op in ("create", "mkdir", "open-w") and path not in created_by and not path.startswith("<"):
-                # creator bookkeeping (only first creator; open-w on an existing path is an overwrite)
-                created_by[path] = p.i
-                holding.add(p.i)
             if ok and op in MUTATING:
                 last_mut = p
             else:
@@ -419,6 +417,15 @@ def _run(spec, tape, root, event_timeout):
                 live.remove(p)
                 holding.discard(p.i)
                 continue
+            if p.last_rec is not None:
+                p.last_rec[6] = nxt.get("r")  # natural outcome of the real call (0, errno, None: no call made)
+                if ok and nxt.get("r") == 0 and op in ("create", "mkdir", "open-w") and not path.startswith("<"):
+                    # creator bookkeeping: who made the entry that currently has this name
+                    if op != "open-w" or path not in created_by:
+                        created_by[path] = p.i
+                    holding.add(p.i)
+                if ok and nxt.get("r") == 0 and op in ("unlink", "rmdir"):
+                    created_by.pop(path, None)
             if nxt["op"] == "exit":
                 p.exit = nxt["code"]
                 p.how = nxt.get("how")
